@@ -48,6 +48,8 @@ def single_cases():
         for bad in (1, None, 'x', [], {}, [resp(qid)], {'jsonrpc': '2.0', 'id': qid}, {'jsonrpc': '1.0', 'id': qid, 'result': 1},
                     {'jsonrpc': '2.0', 'id': qid, 'result': 1, 'error': {'code': 1, 'message': 'm'}},
                     {'jsonrpc': '2.0', 'id': qid, 'error': {'code': '1', 'message': 'm'}}, {'jsonrpc': '2.0', 'id': [1], 'result': 1},
+                    {'jsonrpc': '2.0', 'id': qid, 'error': {'code': [-32601], 'message': 'm'}},         # unhashable code
+                    {'jsonrpc': '2.0', 'id': qid, 'error': {'code': {}, 'message': 'm'}}, {'jsonrpc': [], 'id': qid, 'result': 1},
                     {'jsonrpc': '2.0', 'id': True, 'result': 1}, {'id': qid, 'result': 1}):
             out.append((q, ('json', bad)))
         out.append((q, ('garbage', '{nope')))
@@ -93,6 +95,11 @@ def batch_cases(maxn):
               out.append((qset, ('json', resp(1, 'e'))))
               out.append((qset, ('json', {'jsonrpc': '2.0', 'id': None})))
               out.append((qset, ('json', good[:-1] + [1])))
+              out.append((qset, ('json', good[:-1] + [{'jsonrpc': '2.0', 'id': ids[-1], 'error': {'code': [1], 'message': 'm'}}])))
+              out.append((qset, ('json', {'jsonrpc': '2.0', 'id': None, 'error': {'code': [1], 'message': 'm'}})))
+              # lenient-mode material: a response nobody asked for in front of / behind answers that are out of call order
+              out.append((qset, ('json', [resp(99, 'r', 'x')] + good[::-1])))
+              out.append((qset, ('json', good[::-1] + [resp(99, 'r', 'x')])))
               out.append((qset, ('json', good[:-1] + [{'jsonrpc': '2.0', 'id': ids[-1]}])))
               out.append((qset, ('garbage', '[')))
               out.append((qset, ('none',)))
